@@ -168,6 +168,7 @@ class VIter:
         self.Q = []
         self.R = []
         self.O = []
+        self.Oseq = []
         self.done = False
         self.seq = 0
         self.rt.stat('imap_calls')
@@ -232,12 +233,16 @@ class VIter:
                 raise StopIteration
             tag = ('vp', len(self.Q), len(self.R), len(self.O), self.done,
                    len(ev))
+            if rt.scn.get('prune') and rt.ch.beyond_prefix():
+                self.prune_check()
             c = rt.choose(tag, len(ev), 0, 'sched')
             rt.n_points += 1
             e = ev[c]
             rt.prev_state = (sk, e[0])
             if e[0] == 'DEL':
                 r = self.O.pop(0)
+                if self.Oseq:
+                    self.Oseq.pop(0)
                 if isinstance(r, _Exc):
                     raise r.exc
                 return r
@@ -252,9 +257,33 @@ class VIter:
                     rt.stat('overtaking')
                 self.fin(e[1], e[2])
 
+    def prune_check(self):
+        """State pruning (DESIGN 2.4): if this control state was already
+        visited, beyond a prefix, with at least the same remaining budgets,
+        every continuation is explored from that visit."""
+        rt = self.rt
+        fp = fingerprint(self)
+        if fp is None:
+            return
+        rem = rt.ch.remaining()
+        if rem is None:
+            return
+        key = (rt.scn['name'], fp)
+        seen = _VISITED.get(key)
+        if seen is not None:
+            for old in seen:
+                if all(o[1] >= r[1] for o, r in zip(old, rem)):
+                    rt.stat('pruned')
+                    raise explore.Pruned()
+            seen.append(rem)
+        elif len(_VISITED) < 3000000:
+            _VISITED[key] = [rem]
+
     def _start(self, task):
         w = self.pool.free.pop(0)
-        self.R.append({'task': task, 'worker': w, 'after_T': self.flag()})
+        t, seq = task
+        self.R.append({'task': t, 'worker': w, 'after_T': self.flag(),
+                       'seq': seq})
 
     def pull(self):
         rt = self.rt
@@ -267,18 +296,20 @@ class VIter:
             raise
         except Exception as e:  # noqa
             self.O.append(_Exc(e))
+            self.Oseq.append((-1, 0))
             self.done = True
             return
         try:
             t = _roundtrip(t)
         except Exception as e:  # noqa
             self.O.append(_Exc(e))
+            self.Oseq.append((-2, 0))
             return
         self.seq += 1
         if len(self.R) < self.pool.n:
-            self._start(t)
+            self._start((t, self.seq))
         else:
-            self.Q.append(t)
+            self.Q.append((t, self.seq))
 
     def fin(self, i, k):
         from ddsmt import strategy_ddmin
@@ -304,10 +335,90 @@ class VIter:
             }
             strategy_ddmin.__dict__.update(saved)
         self.O.append(res)
+        self.Oseq.append((e['seq'], k))
         self.pool.free.append(w)
         self.pool.free.sort()
         while self.Q and len(self.R) < self.pool.n:
             self._start(self.Q.pop(0))
+
+
+_VISITED = {}
+
+
+def _norm_tokens_of(exprs):
+    return tuple(GEN_FRESH.sub('x#__fresh', t) for t in tokens_of_exprs(exprs))
+
+
+GEN_FRESH = re.compile(r'x\d+__fresh')
+
+
+def fingerprint(vi):
+    """Canonical control state at a scheduling point, or None where the
+    main-loop state cannot be read (then nothing is pruned).  Equal keys have
+    equal futures: the key holds the main loop's variables, the current input,
+    the producer position, what is queued / running / finished, the flag, the
+    per-worker caches and the adversarial memo.  Node ids are left out: they
+    only show in generated names, to which commands and oracles are blind."""
+    rt = vi.rt
+    f = sys._getframe(2)
+    main = None
+    extra = ()
+    for _ in range(12):
+        if f is None:
+            break
+        name = f.f_code.co_name
+        mod = f.f_globals.get('__name__', '')
+        if name == 'reduce' and mod == 'ddsmt.strategy_hierarchical':
+            loc = f.f_locals
+            main = ('H', loc.get('passid'), loc.get('skip'),
+                    loc.get('fresh_run'), loc.get('reduction'),
+                    _norm_tokens_of(loc.get('exprs')))
+            break
+        if name == '_check_par' and mod == 'ddsmt.strategy_ddmin':
+            loc = f.f_locals
+            tg = loc.get('taskgen')
+            st = loc.get('stats') or {}
+            extra = (loc.get('start_index'), loc.get('skip'), tg.index,
+                     tg.stopped, tg.gran, str(tg.mutator), tg.max_depth,
+                     _norm_tokens_of(tg.exprs),
+                     tuple(tuple(GEN_FRESH.sub('x#__fresh', str(n))
+                                 for n in sub)
+                           for sub in tg.subsets[tg.index:]),
+                     st.get('reduced'), st.get('tests_success'))
+        if name == 'reduce' and mod == 'ddsmt.strategy_ddmin':
+            loc = f.f_locals
+            main = ('D', str(loc.get('mut')), loc.get('nreduced_round'),
+                    loc.get('nreduced')) + extra
+            break
+        f = f.f_back
+    if main is None:
+        return None
+    from ddsmt import strategy_ddmin  # noqa
+    caches = tuple(
+        _norm_tokens_of(g.get('__cached_exprs') or [])
+        for g in vi.pool.wglobals) if extra else ()
+    o_sum = []
+    for r, sk in zip(vi.O, vi.Oseq):
+        o_sum.append(sk + (_result_summary(r), ))
+    memo = tuple(sorted(rt.memo.items())) if rt.memo else ()
+    return hash((main, vi.seq, vi.done, vi.flag(),
+                 tuple(q[1] for q in vi.Q),
+                 tuple((e['seq'], e['after_T'], e['worker']) for e in vi.R),
+                 tuple(o_sum), caches, memo, tuple(vi.pool.free)))
+
+
+def _result_summary(r):
+    if isinstance(r, _Exc):
+        return ('exc', type(r.exc).__name__)
+    try:
+        if isinstance(r, bytes):
+            ok, task = pickle.loads(r)
+            return (ok, task.nodeid, task.name,
+                    _norm_tokens_of(task.exprs) if task.exprs else None)
+        return (r.task_id, r.success, r.reduced, r.tests,
+                _norm_tokens_of(r.exprs) if r.exprs else None)
+    except Exception:  # noqa
+        return ('?', )
 
 
 # --------------------------------------------------------------------------
@@ -676,6 +787,7 @@ def run_once(scn, ch, fault=None, before_main=None):
     x.crash = None
     x.rc = None
     x.sysexit = False
+    x.pruned = False
     try:
         if before_main:
             before_main(rt)
@@ -684,6 +796,8 @@ def run_once(scn, ch, fault=None, before_main=None):
         except SystemExit as e:
             x.rc = e.code if isinstance(e.code, int) else 1
             x.sysexit = True
+        except explore.Pruned:
+            x.pruned = True
         except explore.ReplayDivergence:
             raise
         except common.HarnessError:
@@ -800,6 +914,8 @@ def _init_worker():
 def account(part, scn, ch, x):
     rt = x.rt
     common.pcount(part, 'executions')
+    if x.pruned:
+        common.pcount(part, 'executions_cut_at_a_visited_state')
     common.pcount(part, 'choice_points', rt.n_points)
     dev = ch.deviations()
     for k, v in dev.items():
